@@ -25,8 +25,10 @@ import (
 	"context"
 	"errors"
 	"fmt"
+	"io"
 	"strings"
 	"sync"
+	"sync/atomic"
 	"testing"
 	"time"
 
@@ -54,6 +56,7 @@ type LimScenario struct {
 	TPRot  int      `json:"tp_rot,omitempty"`
 	Push   string   `json:"push"`
 	Accept string   `json:"accept"` // client application: none | all (accepts streams, never reads)
+	Reader string   `json:"reader,omitempty"` // "" = stalled reader; "slow" = the client reads everything and the server sends more than one window (single-stream pushers)
 	Faulty bool     `json:"faulty,omitempty"`
 }
 
@@ -101,6 +104,8 @@ const (
 	limCfgCount        = " (enforced limit comes from Config.MaxIncomingStreams / MaxIncomingUniStreams, not from the spec)"
 	limCfgDgram        = " (datagram support comes from Config.EnableDatagrams, not from the spec)"
 	limCfgIdle         = " (idle timeout comes from Config.MaxIdleTimeout, not from the spec)"
+	limSigStall        = "stream stalled for good although the client application keeps reading: the server used the advertised window to the full and no further credit arrived"
+	limCfgStall        = " (window updates are computed from Config.InitialStreamReceiveWindow / InitialConnectionReceiveWindow, not from the advertised window)"
 	limSigOther        = "client raised a transport error against a server that stayed within the advertised limits: "
 	limSigReach        = "a conformant server could not use an advertised limit to the full on a fault-free network: "
 	limSigRecord       = "the client's own record of its transport parameters (qlog parameters_set) differs from the bytes it sent: "
@@ -220,6 +225,9 @@ func genLimits(seed uint64, tier string) KScenario {
 	sc.Push = limPushKinds[r.N(len(limPushKinds))]
 	sc.Accept = []string{"none", "all"}[r.N(2)]
 	sc.Faulty = r.P(0.3)
+	if strings.HasPrefix(sc.Push, "stream-") && r.P(0.3) {
+		sc.Reader, sc.Accept = "slow", "all"
+	}
 	adv := limBaseValues(sc.Cfg.Client)
 	if r.P(0.65) {
 		// generated parameter list
@@ -440,6 +448,7 @@ type limWire struct {
 	ncidRetire  uint64
 	ncidFrames  int
 	ncidSeen    map[uint64]bool
+	ncidRetired map[uint64]bool // retired by the client (RETIRE_CONNECTION_ID seen on the wire)
 	lastSrvSend int64
 	lastSrvElic int64
 	beyond      string // first excess of the server over an advertised limit
@@ -482,6 +491,8 @@ func (lw *limWire) onSend(rec *DgramRec) {
 				case "MAX_STREAMS":
 					k := int(f.Type - 0x12)
 					lw.maxStreams[k] = max(lw.maxStreams[k], f.Max)
+				case "RETIRE_CONNECTION_ID":
+					lw.ncidRetired[f.Seq] = true
 				}
 			}
 			continue
@@ -543,8 +554,15 @@ func (lw *limWire) onSend(rec *DgramRec) {
 				}
 				lw.ncidMaxSeq = max(lw.ncidMaxSeq, int64(f.Seq))
 				lw.ncidRetire = max(lw.ncidRetire, f.RetirePT)
-				// connection IDs the client has to hold: sequence numbers [retire_prior_to, max]
-				if active := uint64(lw.ncidMaxSeq) + 1 - min(lw.ncidRetire, uint64(lw.ncidMaxSeq)+1); active > adv.cidLimit && lw.beyond == "" {
+				// connection IDs the client has to hold: those issued (sequence number 0 is the handshake one), not below
+				// retire_prior_to and not retired by the client itself
+				active := uint64(0)
+				for seq := lw.ncidRetire; seq <= uint64(lw.ncidMaxSeq); seq++ {
+					if (seq == 0 || lw.ncidSeen[seq]) && !lw.ncidRetired[seq] {
+						active++
+					}
+				}
+				if active > adv.cidLimit && lw.beyond == "" {
 					lw.beyond = fmt.Sprintf("active connection IDs: %d, limit %d", active, adv.cidLimit)
 				}
 			}
@@ -625,7 +643,7 @@ func runLimits(t *testing.T, ksc KScenario, res *KResult) {
 	nodes.UTr = &quic.UTransport{Transport: nodes.CTr, QUICSpec: spec}
 	wo := NewWireOracles(w, nodes, res)
 	wo.on = on
-	lw := &limWire{streamEnd: map[uint64]uint64{}, maxStreamTo: map[uint64]uint64{}, ncidSeen: map[uint64]bool{}}
+	lw := &limWire{streamEnd: map[uint64]uint64{}, maxStreamTo: map[uint64]uint64{}, ncidSeen: map[uint64]bool{}, ncidRetired: map[uint64]bool{}}
 	prevSend := w.OnSend
 	w.OnSend = func(rec *DgramRec, data []byte) {
 		if prevSend != nil {
@@ -858,7 +876,31 @@ func runLimits(t *testing.T, ksc KScenario, res *KResult) {
 		case <-appCtx.Done():
 		}
 	}()
-	// ---- client application: stalled reader
+	deadline := 300 * time.Second // overall cap of one push
+	stallLimit := 12 * time.Second
+	// ---- client application: stalled reader (or, Reader == "slow", one that reads everything)
+	slow := sc.Reader == "slow"
+	var clientRead atomic.Uint64
+	var clientEOF atomic.Bool
+	reader := func(s io.Reader) {
+		defer wg.Done()
+		buf := make([]byte, 16<<10)
+		since := 0
+		for {
+			n, err := s.Read(buf)
+			clientRead.Add(uint64(n))
+			if err == io.EOF {
+				clientEOF.Store(true)
+			}
+			if err != nil {
+				return
+			}
+			if since += n; since >= 64<<10 {
+				since = 0
+				time.Sleep(time.Millisecond)
+			}
+		}
+	}
 	var held struct {
 		sync.Mutex
 		uni  []*quic.ReceiveStream
@@ -876,6 +918,11 @@ func runLimits(t *testing.T, ksc KScenario, res *KResult) {
 				held.Lock()
 				held.uni = append(held.uni, s)
 				held.Unlock()
+				if slow {
+					s.SetReadDeadline(time.Now().Add(deadline))
+					wg.Add(1)
+					go reader(s)
+				}
 			}
 		}()
 		go func() {
@@ -888,14 +935,17 @@ func runLimits(t *testing.T, ksc KScenario, res *KResult) {
 				held.Lock()
 				held.bidi = append(held.bidi, s)
 				held.Unlock()
+				if slow {
+					s.SetReadDeadline(time.Now().Add(deadline))
+					wg.Add(1)
+					go reader(s)
+				}
 			}
 		}()
 	}
 	rtt := 2 * time.Duration(sc.Net.LatencyUS+sc.Net.JitterUS) * time.Microsecond
 	settle := rtt + 80*time.Millisecond // delivery of the last packets + the client's reaction
 	clientDead := func() bool { return cconn.Context().Err() != nil || sconn.Context().Err() != nil }
-	deadline := 300 * time.Second // overall cap of one push
-	stallLimit := 12 * time.Second
 	// waitFor polls the wire until cond holds, an endpoint dies, or the server has made no progress for a while
 	waitFor := func(cond func(limSnap) bool) bool {
 		until := time.Now().Add(deadline)
@@ -906,7 +956,7 @@ func runLimits(t *testing.T, ksc KScenario, res *KResult) {
 			if cond(s) {
 				return true
 			}
-			if progress := s.total + s.opened[0] + s.opened[1] + uint64(s.dgramFrames); progress != last {
+			if progress := s.total + s.opened[0] + s.opened[1] + uint64(s.dgramFrames) + clientRead.Load(); progress != last {
 				last, stall = progress, time.Now()
 			}
 			if clientDead() || time.Now().After(until) || time.Since(stall) > stallLimit || ctx.Err() != nil {
@@ -918,25 +968,38 @@ func runLimits(t *testing.T, ksc KScenario, res *KResult) {
 	reached := false  // the pusher got to the boundary of the advertised limit
 	reachable := true // the boundary can be reached by a conformant peer at all
 	what := ""        // what was not reached
+	stalled := ""     // slow-reader variant: signature of a stall
 	// writer: writes zeros until the stream blocks for good (released by a write deadline)
 	var writers sync.WaitGroup
 	var wmu sync.Mutex
 	var sendStreams []interface{ SetWriteDeadline(time.Time) error }
+	var writeTotal uint64 // slow-reader variant: the writer sends exactly this many bytes and closes the stream
 	startWriter := func(s interface {
 		Write([]byte) (int, error)
 		SetWriteDeadline(time.Time) error
+		Close() error
 	}) {
 		wmu.Lock()
 		sendStreams = append(sendStreams, s)
 		wmu.Unlock()
+		if slow {
+			win := adv.streamWindow(uint64(s.(interface{ StreamID() quic.StreamID }).StreamID()))
+			writeTotal = win + min(win, 256<<10) + 1000
+		}
 		writers.Add(1)
 		go func() {
 			defer writers.Done()
-			for {
-				if _, err := s.Write(limZeros); err != nil {
+			for left := writeTotal; !slow || left > 0; {
+				n := uint64(len(limZeros))
+				if slow {
+					n = min(n, left)
+				}
+				if _, err := s.Write(limZeros[:n]); err != nil {
 					return
 				}
+				left -= min(left, n)
 			}
+			s.Close()
 		}()
 	}
 	releaseWriters := func() {
@@ -983,6 +1046,11 @@ func runLimits(t *testing.T, ksc KScenario, res *KResult) {
 			ocancel()
 			if err == nil {
 				id = uint64(ss.StreamID())
+				if slow {
+					cs.SetReadDeadline(time.Now().Add(deadline))
+					wg.Add(1)
+					go reader(cs)
+				}
 				startWriter(ss)
 			} else {
 				ok = false
@@ -995,6 +1063,21 @@ func runLimits(t *testing.T, ksc KScenario, res *KResult) {
 			break
 		}
 		target = min(adv.streamWindow(id), adv.maxData)
+		if slow && target > 0 {
+			// more than one window: the client has to grant further credit while its application reads
+			res.Logf("sending %d bytes on stream %d to a reading client (stream window %d, connection window %d)", writeTotal, id, adv.streamWindow(id), adv.maxData)
+			reached = waitFor(func(limSnap) bool { return clientEOF.Load() && clientRead.Load() == writeTotal })
+			what = fmt.Sprintf("stream %d: %d of %d bytes sent, %d read by the client application", id, lw.snap().ends[id], writeTotal, clientRead.Load())
+			if !reached && !clientDead() && !sc.Faulty && len(sc.Faults) == 0 && ctx.Err() == nil {
+				sig := limSigStall
+				if adv.streamWindow(id) < cfgStream || adv.maxData < cfgConn {
+					sig += limCfgStall
+					res.Probe("finding:window-updates-from-config")
+				}
+				stalled = sig
+			}
+			break
+		}
 		res.Logf("pushing stream %d to %d bytes", id, target)
 		reached = waitFor(func(s limSnap) bool { return s.ends[id] >= target })
 		what = fmt.Sprintf("stream %d: %d of %d bytes sent", id, lw.snap().ends[id], target)
@@ -1252,12 +1335,14 @@ func runLimits(t *testing.T, ksc KScenario, res *KResult) {
 		switch {
 		case reached:
 			if sc.TPs != nil {
-				res.Probe("reach:" + sc.Push + ":derived")
+				res.Probe("reach:" + sc.Push + sc.Reader + ":derived")
 			} else {
-				res.Probe("reach:" + sc.Push + ":" + sc.Cfg.Client)
+				res.Probe("reach:" + sc.Push + sc.Reader + ":" + sc.Cfg.Client)
 			}
 		case !reachable:
 			res.Probe("not-applicable:" + sc.Push)
+		case stalled != "":
+			report("C12", stalled, "%s; client and server connections alive; advertised stream windows %d/%d/%d connection %d; client Config: stream window %d, connection window %d", what, adv.bidiLocal, adv.bidiRemote, adv.uni, adv.maxData, cfgStream, cfgConn)
 		case !sc.Faulty && len(sc.Faults) == 0:
 			report("C12", limSigReach+sc.Push, "%s; client and server connections alive", what)
 		default:
